@@ -12,7 +12,8 @@ Local Open Scope Z_scope.
 Inductive exn :=
 | KeyError | IndexError | AssertionError | TypeError | ValueError
 | JellyConformanceError | JellyAssertionError | JellyNotImplementedError
-| StopIteration | NotImplementedError | ZeroDivisionError | AttributeError | RecursionError.
+| StopIteration | NotImplementedError | ZeroDivisionError | AttributeError | RecursionError
+| OutsideModel.   (* not a Python exception: a path the translation does not describe (the ties show it is not taken) *)
 
 (* the outcome of a call: a value or a raised exception; the object's state is returned beside it
    in both cases (what a method changed before it raised stays changed) *)
@@ -34,7 +35,8 @@ Definition is_exn (e e' : exn) : bool :=
   | JellyConformanceError, JellyConformanceError | JellyAssertionError, JellyAssertionError
   | JellyNotImplementedError, JellyNotImplementedError
   | StopIteration, StopIteration | NotImplementedError, NotImplementedError
-  | ZeroDivisionError, ZeroDivisionError | AttributeError, AttributeError | RecursionError, RecursionError => true
+  | ZeroDivisionError, ZeroDivisionError | AttributeError, AttributeError | RecursionError, RecursionError
+  | OutsideModel, OutsideModel => true
   | _, _ => false
   end.
 
